@@ -12,8 +12,8 @@ for line in open(os.path.join(HERE, 'seeded', 'RESULTS.tsv')):
 
 
 def key(s):
-    m = re.match(r'C(\d+)(-r2)?-(\d+)', s)
-    return (int(m.group(1)), 1 if m.group(2) else 0, int(m.group(3)))
+    m = re.match(r'C(\d+)(?:-r(\d+))?-(\d+)', s)
+    return (int(m.group(1)), int(m.group(2) or 1), int(m.group(3)))
 
 
 lines = ['| seeded change | what it breaks / what it needs | caught by (quick tier) | signature (first) |', '|---|---|---|---|']
@@ -26,8 +26,8 @@ for seed in sorted(rows, key=key):
         pass
     title = (meta.get('title') or '').replace('|', '/')
     needs = (meta.get('needs_to_manifest') or '').replace('|', '/').replace('\n', ' ')
-    if len(needs) > 150:
-        needs = needs[:147] + '...'
+    if len(needs) > 110:
+        needs = needs[:107] + '...'
     hits = [(c, s) for c, e, s in rows[seed] if e == 'exit=1']
     if hits:
         caught += 1
